@@ -200,6 +200,12 @@ def consistency(sr, u, snap, t_hint, key_base, findings, prefix='', walk=True):
             findings.append(make_finding('C05', key_base + '|exists_without_metadata', '%s exists but metadata fails' % v, sr))
         if o.exists is False and not is_err(o.meta):
             findings.append(make_finding('C05', key_base + '|metadata_without_exists', '%s has metadata but does not exist' % v, sr))
+        # "a path exists iff its parent lists its name exactly once": an existing path whose parent cannot be listed at all
+        # (absent, or not a directory) is listed zero times
+        if v != 'R' and o.exists is True:
+            po = snap[u.parent(v)]
+            if po.listing is None or is_err(po.listing):
+                findings.append(make_finding('C05', key_base + '|exists_but_parent_not_listable', '%s exists, but read_dir of its parent fails: no listing contains it' % v, sr))
         # directory iff it can be listed; file iff it can be read
         can_list = o.listing is not None and not is_err(o.listing)
         can_read = o.content is not None and not is_err(o.content)
@@ -228,7 +234,7 @@ def consistency(sr, u, snap, t_hint, key_base, findings, prefix='', walk=True):
             for nm in foreign:
                 # an entry outside the universe (e.g. overlay bookkeeping, reported under C10): C05 only asks that the
                 # observers agree about it
-                if not foreign_exists(sr, nm):
+                if not foreign_exists(sr, nm, prefix):
                     findings.append(make_finding('C05', key_base + '|foreign_entry_absent', 'read_dir(%s) lists %r, but exists() on it is false' % (v, nm), sr))
     if walk:
         pv = prefix + 'R' if prefix else 'R'
@@ -246,7 +252,7 @@ def consistency(sr, u, snap, t_hint, key_base, findings, prefix='', walk=True):
                 continue
             m, foreign = match_names(ex, [it], cands)
             if foreign:
-                if not foreign_exists(sr, it):
+                if not foreign_exists(sr, it, prefix):
                     findings.append(make_finding('C05', key_base + '|walk_foreign_absent', 'walk_dir yields %r, but exists() on it is false' % (it,), sr))
                 continue
             c = m[0]
@@ -266,14 +272,14 @@ def consistency(sr, u, snap, t_hint, key_base, findings, prefix='', walk=True):
                 findings.append(make_finding('C05', key_base + '|walk_ghost', 'walk_dir yields %s which does not exist' % c, sr))
 
 
-def foreign_exists(sr, full):
+def foreign_exists(sr, full, prefix=''):
     """exists() of a listed path that is not part of the universe (full = absolute path bytes, concrete)"""
     full = S(full)
     if not full.is_concrete():
         return True
     k = len([x for x in sr.paths if x.startswith('fx')])
     var = 'fx%d' % k
-    root = 'R'
+    root = (prefix + 'R') if prefix else 'R'
     sr.do('join %s %s %s' % (var, root, hx(bytes(full))))
     if not sr.last.ok:
         return True
